@@ -111,7 +111,7 @@ def run_case(case, worlds):
         o = w.send("refresh")
     if o.kind != "ok":
         raise drivers.MachineryError("send failed %r" % (o.brief(),))
-    req = drivers.open_request(cfg, w.take_request())
+    req = drivers.open_request(cfg, w.take_request(), strict=False, check_mac=False)
     forged = forge(cfg, req, case["mac"], case["flag_auth"], case["flag_priv"], case["body"], case.get("seed", 1), walk=op in ("getnext", "getbulk"), form=case.get("form", "consistent"))
     w.inject(forged)
     out1 = w.recv(op, it)
@@ -193,6 +193,191 @@ def work(chunk):
     return res
 
 
+# ------------------------------------------------------------------ keys an attacker can guess, discovery routes
+
+
+GUESS_KEYS = ["zero-key", "zero-master@eid", "zero-master@empty", "password-as-key"]
+
+
+def guess_key(cfg, name, eid):
+    n = refcrypto.KEYLEN[cfg.auth]
+    if name == "zero-key":
+        return bytes(n)
+    if name == "zero-master@eid":
+        return refcrypto.localize(cfg.auth, bytes(n), eid)
+    if name == "zero-master@empty":
+        return refcrypto.localize(cfg.auth, bytes(n), b"")
+    return (cfg.user.encode() * n)[:n]
+
+
+class EmptyEidCfg(Cfg):
+    """The session is created with its real user and keys but without an engine id (low-level use of the socket)."""
+
+    def make_raw_socket(self, port, timeout_ns=0):
+        mod, fast = drivers.subject()
+        eid, user, a_alg, a_key, p_alg, p_key = self.raw_args()
+        return fast.SnmpV3ClientSocket("127.0.0.1:%d" % port, b"", user, a_alg, a_key, p_alg, p_key, 0, 0, 0, timeout_ns)
+
+
+def forged_with_key(cfg, msg_id, request_id, eid, boots, time, key, encrypt):
+    pdu = rb.build_pdu(rb.PDU_RESPONSE, request_id, 0, 0, [(SYS, rb.enc_octets(b"FORGED"))])
+    scoped = rb.build_scoped(eid, b"", pdu)
+    data, priv_params = scoped, b""
+    if encrypt:
+        priv_params = b"\x00\x00\x00\x02frg!"
+        data = rb.enc_octets(refcrypto.usm_encrypt(cfg.priv, key[:16], boots, time, priv_params, scoped))
+    usm = rb.build_usm(eid, boots, time, cfg.user, bytes(12), priv_params)
+    msg = rb.build_v3(msg_id, 1 | (2 if encrypt else 0), usm, data)
+    off = rb.parse_message(msg).auth_off
+    return msg[:off] + refcrypto.mac_of_message(cfg.auth, key, msg, off) + msg[off + 12 :]
+
+
+def run_route(case):
+    """Discovery routes on the raw socket, then a reply whose MAC (and ciphertext) is made with a key anybody can compute."""
+    mod, fast = drivers.subject()
+    cfg0 = Cfg.from_desc(case["cfg"])
+    force = getattr(fast, "_verif_rng_force", None)
+    route = case["route"]
+    real_eid = cfg0.engine_id
+    report_eid = b"" if case["report_eid"] == "empty" else real_eid
+    if route == "raw-empty-eid":
+        cfg = EmptyEidCfg.from_desc(case["cfg"])
+        cfg.__class__ = EmptyEidCfg
+    else:
+        d = dict(case["cfg"])
+        d["discover"] = True
+        cfg = Cfg.from_desc(d)
+    w = drivers.SplitWorld(cfg)
+    try:
+        o = w.send("refresh")
+        data = w.take_request()
+        if o.kind != "ok" or data is None:
+            raise drivers.MachineryError("discovery probe not sent: %r" % (o.brief(),))
+        r = rb.parse_message(data, strict=False)
+        anon = Cfg("v3", user="", engine_id=real_eid)
+        vb = [((1, 3, 6, 1, 6, 3, 15, 1, 1, 4, 0), values.v_unsigned("counter32", 1).tlv)]
+        pdu = rb.build_pdu(rb.PDU_REPORT, 0, 0, 0, vb)
+        usm = rb.build_usm(report_eid, 7, 100, r.user, b"", b"")
+        w.inject(rb.build_v3(r.msg_id, 0, usm, rb.build_scoped(report_eid, b"", pdu)))
+        w.recv("refresh")
+        if route == "set-keys":
+            eid, user, a_alg, a_key, p_alg, p_key = cfg.raw_args(report_eid)
+            drivers.call(w.sock.set_keys, user, a_alg, a_key, p_alg, p_key)
+        rid, mid = 0x1234567, 0x2345678
+        if force:
+            force([rid, mid])
+        o = w.send("get", rb.oid_str(SYS))
+        if force:
+            force([])
+        data = w.take_request()
+        if o.kind != "ok" or data is None:
+            return "not-sent", None
+        q = rb.parse_message(data, strict=False)
+        if q.request_id is not None:
+            rid = q.request_id
+        elif not force:
+            return "no-seam", None
+        forged = forged_with_key(cfg, q.msg_id, rid, q.engine_id, q.boots, q.time, guess_key(cfg, case["key"], q.engine_id), bool(cfg.priv) and case["encrypt"])
+        w.inject(forged)
+        out = w.recv("get")
+        return classify_out(out, "get"), out
+    finally:
+        w.close()
+
+
+def run_lost_probe(case):
+    """Public client, engine id discovered, the very first datagram lost, the application retries; then a reply without
+    any authentication (flags 0) that matches user, engine id, msgID and request-id."""
+    cfg = Cfg.from_desc(case["cfg"])
+    eid = cfg.engine_id
+    state = {"n": 0}
+
+    def forger(data, idx=None):
+        state["n"] += 1
+        if state["n"] == 1:
+            return []
+        r = rb.parse_message(data, strict=False)
+        if not r.engine_id:
+            vb = [((1, 3, 6, 1, 6, 3, 15, 1, 1, 4, 0), values.v_unsigned("counter32", 1).tlv)]
+            pdu = rb.build_pdu(rb.PDU_REPORT, 0, 0, 0, vb)
+            return [rb.build_v3(r.msg_id, 0, rb.build_usm(eid, 7, 100, b"", b"", b""), rb.build_scoped(eid, b"", pdu))]
+        rid = r.request_id if r.request_id is not None else 0
+        if r.pdu_tag == rb.PDU_GET and not r.oids:
+            vb = [((1, 3, 6, 1, 6, 3, 15, 1, 1, 2, 0), values.v_unsigned("counter32", 2).tlv)]
+            if cfg.auth and r.flags & 1:
+                try:
+                    req = drivers.open_request(cfg, data, strict=False, check_mac=False)
+                    return [drivers.reply_for(cfg, req, vb, pdu_tag=rb.PDU_REPORT, boots=7, time=101, flags=1)]
+                except Exception:  # noqa: BLE001
+                    return []
+            pdu = rb.build_pdu(rb.PDU_REPORT, rid, 0, 0, vb)
+            return [rb.build_v3(r.msg_id, 0, rb.build_usm(eid, 7, 101, r.user, b"", b""), rb.build_scoped(eid, b"", pdu))]
+        pdu = rb.build_pdu(rb.PDU_RESPONSE, rid, 0, 0, [(SYS, rb.enc_octets(b"FORGED"))])
+        return [rb.build_v3(r.msg_id, 0, rb.build_usm(eid, 7, 102, r.user, b"", b""), rb.build_scoped(eid, b"", pdu))]
+
+    if case["driver"] == "sync":
+        w = drivers.SyncWorld(cfg, forger, timeout=0.4)
+        try:
+            s = w.session
+            o = drivers.call(s.__enter__)
+            if o.kind != "ok":
+                o = drivers.call(s.refresh)
+            out = drivers.call(s.get, rb.oid_str(SYS))
+        finally:
+            w.close()
+    else:
+
+        async def client(s):
+            try:
+                await s.__aenter__()
+            except Exception:  # noqa: BLE001
+                await s.refresh()
+            return await s.get(rb.oid_str(SYS))
+
+        out, reqs, errs = drivers.run_async(cfg, forger, client, timeout=0.4)
+    return classify_out(out, "get"), out
+
+
+def work_routes(chunk):
+    res = common.Result()
+    for case in chunk:
+        cfg = Cfg.from_desc(case["cfg"])
+        if case["kind"] == "route":
+            c1, out = run_route(case)
+            sig = "guessable-key/%s/report-eid-%s/%s-%s/key=%s%s" % (case["route"], case["report_eid"], drivers.AUTH_NAMES[cfg.auth], drivers.PRIV_NAMES[cfg.priv], case["key"], "/encrypted" if case["encrypt"] and cfg.priv else "")
+            what = "reply authenticated with the key '%s' after discovery via %s (Report engine id %s)" % (case["key"], case["route"], case["report_eid"])
+        else:
+            c1, out = run_lost_probe(case)
+            sig = "lost-probe/%s/%s-%s" % (case["driver"], drivers.AUTH_NAMES[cfg.auth], drivers.PRIV_NAMES[cfg.priv])
+            what = "first discovery datagram lost, refresh retried, then a reply with msgFlags 0 and no MAC"
+        res.count("forgeries")
+        res.count("api_calls", 4)
+        res.distinct()
+        res.outcome(c1)
+        if c1 == "no-seam":
+            res["caps"].append("RNG seam absent: encrypted requests of the discovery routes cannot be matched")
+            continue
+        if out is not None and out.kind == "exc" and out.is_panic():
+            res.violation("panic/" + sig, "%s raised %s" % (what, out.exc_name), case)
+        elif c1 == "delivered-forged" or c1.startswith("value:"):
+            res.violation("accepted-forgery/" + sig, "%s was delivered: %s" % (what, c1), case)
+    return res
+
+
+def gen_routes(tier):
+    for auth, priv in ((1, 0), (2, 0), (1, 1), (2, 2)):
+        for kt in (0, 1):
+            cfg = Cfg("v3", auth=auth, priv=priv, key_type=kt)
+            for route, report_eid in (("raw-empty-eid", "real"), ("raw-empty-eid", "empty"), ("set-keys", "real"), ("set-keys", "empty")):
+                for key in GUESS_KEYS:
+                    for encrypt in (True, False) if priv else (False,):
+                        yield {"kind": "route", "cfg": cfg.describe(), "route": route, "report_eid": report_eid, "key": key, "encrypt": encrypt}
+    for driver in ("sync", "async"):
+        for auth, priv in ((1, 0), (2, 0), (2, 2)):
+            cfg = Cfg("v3", auth=auth, priv=priv, discover=True)
+            yield {"kind": "lost-probe", "driver": driver, "cfg": cfg.describe()}
+
+
 def gen_cases(tier):
     thorough = tier == "thorough"
     for auth, priv in itertools.product((1, 2), (0, 1, 2)):
@@ -216,6 +401,10 @@ def gen_cases(tier):
 
 def replay(case):
     common.prepare_stage()
+    if case.get("kind") == "route":
+        return {"outcome": run_route(case)[0]}
+    if case.get("kind") == "lost-probe":
+        return {"outcome": run_lost_probe(case)[0]}
     out1, out2 = run_case(case, {})
     return {"forgery": classify_out(out1, case["op"]), "genuine": classify_out(out2, case["op"])}
 
@@ -229,7 +418,9 @@ def run(tier):
     rec = common.Recorder(PROPERTY, tier, LEVEL, MODULE)
     rec.rule = (
         "otherwise-matching reply x MAC in {valid, zero, random, wrong key, absent, short, long, each of the 96 single-bit flips} x auth flag x priv flag (ciphertext / plaintext) x "
-        "{GetResponse, Report} x {MD5,SHA1} x {none,DES,AES} x pending operation, each followed by the genuine reply. Non-trivial: every case (all are distinct forgeries)."
+        "{GetResponse, Report} x {MD5,SHA1} x {none,DES,AES} x pending operation, each followed by the genuine reply; after engine-id discovery by 4 routes (socket created without engine id / set_keys after discovery x Report carrying the real or an EMPTY engine id) "
+        "a reply authenticated (and encrypted) under each key anybody can compute {all-zero, zero master localized to the engine id / to the empty id, user name}; public clients with the first discovery datagram lost, "
+        "refresh retried, then a reply with msgFlags 0. Non-trivial: every case (all are distinct forgeries)."
     )
     rec.assume(
         "a GetResponse must be delivered iff flagged auth with a valid MAC and (when privacy is configured) encrypted; Reports may be accepted unauthenticated (either outcome passes)",
@@ -238,5 +429,6 @@ def run(tier):
     )
     cases = [c for c in gen_cases(tier) if not c.get("noauth")]
     common.run_cases(rec, work, cases, chunk=150)
+    common.run_cases(rec, work_routes, list(gen_routes(tier)), chunk=8)
     n = rec.counters["forgeries"]
     return rec.finish(evaluations=n, distinct_nontrivial=rec.distinct_n)
